@@ -8,9 +8,17 @@ def main():
     tier, replay = vlib.tier_from_argv()
     t0 = time.time()
     if replay:
-        import json
-        print(json.load(open(replay))['detail'])
-        tier = 'quick'
+        import json, re
+        det = json.load(open(replay))['detail']
+        print(det)
+        # the expression of the case, evaluated alone by the real library (the violating domains are deterministic: the tier itself is the full replay)
+        m = re.match(r"^(.*\)) (=|!=) ", str(det.get('case', '')))
+        if m:
+            w = vlib.Worker('xdrv')
+            print(w.request('doc', 'd', 'st', '<r/>'))
+            print(m.group(1), '->', w.request('xp', 'd', '/', m.group(1)))
+            w.close()
+        return
     counts, viols, samples = vlib.run_cpp_sharded('c18', [tier])
     cov = {
         'evaluations': counts.get('evaluations', 0),
